@@ -40,7 +40,7 @@ REQUIRED = {'quick': {'evaluations': 8000, 'explicit_index_queries': 5000, 'mult
 
 MALFORMED = ['length', ' length', 'x%length', '%a.length', '%1x.length', '%.length', '%-.length', '%x1.edition',
              '0.length', '$length', '%one.n_subsets', '% .length', '%1,0.length']
-INDICES = [0, 1, 2, 3, 4, 5, 6, 9]
+INDICES = [0, 1, 2, 3, 4, 5, 6, 9, 10, 12, 99, 255, 1000]
 
 
 def anchors():
@@ -157,6 +157,13 @@ def check_message(ctx, dec, q, names, b, spec, edition, sec2):
     nz = bytearray(noise)
     nz[len(b) - 4:] = b'7777'
     variants.append(('noise-data', bytes(nz)))
+    # history on the shared decoder: a lenient FULL decode first - the metadata-only decodes that follow must still be metadata-only
+    try:
+        dec.process(b, ignore_value_expectation=True)
+        dec.process(b, ignore_value_expectation=True, wire_template_data=False)
+        ctx.count('lenient_full_decodes_before_info_only')
+    except Exception:
+        ctx.count('lenient_full_decode_raises')
     # (the lenient option ignore_value_expectation must not turn a metadata-only decode into a full one)
     variants = [(vn, vb, {}) for vn, vb in variants] + [(vn + '+ignore-value-expectation', vb, dict(ignore_value_expectation=True))
                                                          for vn, vb in variants]
